@@ -79,10 +79,18 @@ func genContentCfg(r *hv.Rng, prefix string, nAttr int, types []blockTy, withDyn
 		n := r.Intn(3)
 		var jblocks []any
 		for k := 0; k < n; k++ {
-			inner := map[string]any{"x": k}
+			var inner any = map[string]any{"x": k}
+			arrayBody := r.Chance(0.3)
+			if arrayBody {
+				// the block's body in array form: [{...}, {...}] (JSON side only)
+				inner = []any{map[string]any{}, inner, map[string]any{}}[r.Intn(2) : 2+r.Intn(2)]
+			}
 			if t.labeled {
 				lbl := fmt.Sprintf("l%d", k)
 				fmt.Fprintf(&nb, "%s \"%s\" {\n  x = %d\n}\n", t.name, lbl, k)
+				if arrayBody {
+					inner = []any{inner} // below a label an array lists block instances
+				}
 				jblocks = append(jblocks, map[string]any{lbl: inner})
 			} else {
 				fmt.Fprintf(&nb, "%s {\n  x = %d\n}\n", t.name, k)
@@ -108,7 +116,23 @@ func genContentCfg(r *hv.Rng, prefix string, nAttr int, types []blockTy, withDyn
 		jtop["dynamic"] = jdyn
 	}
 	c.native = nb.String()
-	jb, _ := json.Marshal(jtop)
+	var jroot any = jtop
+	if r.Chance(0.5) {
+		// the top-level body in array form: the properties spread over 2..4 objects
+		keys := hv.SortedKeys(jtop)
+		n := 2 + r.Intn(3)
+		objs := make([]any, n)
+		parts := make([]map[string]any, n)
+		for i := range parts {
+			parts[i] = map[string]any{}
+			objs[i] = parts[i]
+		}
+		for i, k := range keys {
+			parts[i*n/len(keys)][k] = jtop[k]
+		}
+		jroot = objs
+	}
+	jb, _ := json.Marshal(jroot)
 	c.json = string(jb)
 	return c
 }
@@ -266,23 +290,29 @@ func (rn *runner) contentRound(base string, rc roundCfg) {
 		}
 		return f.Body
 	}
-	var raw hcl.Body
+	// parseRaw parses the configuration AGAIN on every call: the trees of the
+	// concurrent phases are fresh ones (first-use discipline, cold.go)
+	parseRaw := func() hcl.Body {
+		switch {
+		case merged:
+			b1, b2 := parse(ca, false), parse(cb, true)
+			if b1 == nil || b2 == nil {
+				return nil
+			}
+			return hcl.MergeBodies([]hcl.Body{b1, b2})
+		case strings.HasSuffix(base, "json"):
+			return parse(ca, true)
+		default:
+			return parse(ca, false)
+		}
+	}
 	switch {
 	case merged:
-		b1, b2 := parse(ca, false), parse(cb, true)
-		if b1 == nil || b2 == nil {
-			rep.Hist("item:unparseable-skipped")
-			return
-		}
-		raw = hcl.MergeBodies([]hcl.Body{b1, b2})
 		src = ca.native + "\n# merged with JSON:\n" + cb.json
 	case strings.HasSuffix(base, "json"):
-		raw = parse(ca, true)
 		src = ca.json
-	default:
-		raw = parse(ca, false)
 	}
-	if raw == nil {
+	if parseRaw() == nil {
 		rep.Hist("item:unparseable-skipped")
 		return
 	}
@@ -313,32 +343,49 @@ func (rn *runner) contentRound(base string, rc roundCfg) {
 		"sh":    cty.StringVal("shared"),
 		"names": cty.ListVal([]cty.Value{cty.StringVal("n1"), cty.StringVal("n2"), cty.StringVal("n3")}),
 	}}
-	mkBase := func(ctx *hcl.EvalContext) hcl.Body {
-		if withDyn {
-			return dynblock.Expand(raw, ctx)
+	// build makes the shared bodies and the calls on them from FRESH parses: tree
+	// A carries the base calls and the goroutines' own chains and is not touched
+	// here at all; tree B carries the remainders (making them needs two partial
+	// steps on B, so only the remaining bodies themselves are unused).
+	build := func() []contentOp {
+		rawA, rawB := parseRaw(), parseRaw()
+		if rawA == nil || rawB == nil {
+			return nil
 		}
-		return raw
+		mkBase := func(raw hcl.Body, ctx *hcl.EvalContext) hcl.Body {
+			if withDyn {
+				return dynblock.Expand(raw, ctx)
+			}
+			return raw
+		}
+		// shared bodies: the base, the remainder after one partial step, and after two
+		b0 := mkBase(rawA, sharedCtx)
+		_, r1, _ := mkBase(rawB, sharedCtx).PartialContent(s1)
+		_, r2, _ := r1.PartialContent(s2)
+		var ops []contentOp
+		ops = append(ops, bodyOpsOn("base", b0, sFull, s1)...)
+		ops = append(ops, bodyOpsOn("remain1", r1, sRest1, s2)...)
+		ops = append(ops, bodyOpsOn("remain2", r2, sRest2, sRest2)...)
+		// each goroutine also builds its OWN expansion and remainders, but with the
+		// shared schema objects (the usual shape of an application)
+		ops = append(ops, contentOp{"own-chain", func() string {
+			ctx := sharedCtx.NewChild()
+			b := mkBase(rawA, ctx)
+			c1, rem1, d1 := b.PartialContent(s1)
+			c2, rem2, d2 := rem1.PartialContent(s2)
+			c3, d3 := rem2.Content(sRest2)
+			c4, d4 := rem1.Content(sRest1)
+			return dumpBC(c1, d1) + " / " + dumpBC(c2, d2) + " / " + dumpBC(c3, d3) + " / " + dumpBC(c4, d4)
+		}})
+		return ops
 	}
-
-	// shared bodies: the base, the remainder after one partial step, and after two
-	b0 := mkBase(sharedCtx)
-	_, r1, _ := b0.PartialContent(s1)
-	_, r2, _ := r1.PartialContent(s2)
-	var ops []contentOp
-	ops = append(ops, bodyOpsOn("base", b0, sFull, s1)...)
-	ops = append(ops, bodyOpsOn("remain1", r1, sRest1, s2)...)
-	ops = append(ops, bodyOpsOn("remain2", r2, sRest2, sRest2)...)
-	// each goroutine also builds its OWN expansion and remainders, but with the
-	// shared schema objects (the usual shape of an application)
-	ops = append(ops, contentOp{"own-chain", func() string {
-		ctx := sharedCtx.NewChild()
-		b := mkBase(ctx)
-		c1, rem1, d1 := b.PartialContent(s1)
-		c2, rem2, d2 := rem1.PartialContent(s2)
-		c3, d3 := rem2.Content(sRest2)
-		c4, d4 := rem1.Content(sRest1)
-		return dumpBC(c1, d1) + " / " + dumpBC(c2, d2) + " / " + dumpBC(c3, d3) + " / " + dumpBC(c4, d4)
-	}})
+	// the solo (reference) results come from one build, the concurrent phase
+	// below runs on another one
+	ops := build()
+	if ops == nil {
+		rep.Hist("item:unparseable-skipped")
+		return
+	}
 
 	solo := make([]string, len(ops))
 	stable := make([]bool, len(ops))
@@ -370,7 +417,15 @@ func (rn *runner) contentRound(base string, rc roundCfg) {
 	}
 	var mu sync.Mutex
 	var diffs []diff
-	start := make(chan struct{})
+	if raceEnabled || r.Chance(0.85) {
+		if f := build(); f != nil && len(f) == len(ops) {
+			ops = f
+			rep.Hist("phase:concurrent-on-fresh-parse")
+		}
+	} else {
+		rep.Hist("phase:concurrent-on-warmed-up-tree")
+	}
+	start := newBarrier(rc.G)
 	var wg sync.WaitGroup
 	reps := rc.reps * 6
 	for g := 0; g < rc.G; g++ {
@@ -379,7 +434,7 @@ func (rn *runner) contentRound(base string, rc roundCfg) {
 		go func(g int) {
 			defer wg.Done()
 			lr := hv.NewRng(seed, 1800+uint64(g))
-			<-start
+			start.arrive()
 			for rp := 0; rp < reps; rp++ {
 				for i := range ops {
 					k := (i + g) % len(ops) // goroutines are at different calls at the same time
@@ -395,9 +450,37 @@ func (rn *runner) contentRound(base string, rc roundCfg) {
 			}
 		}(g)
 	}
-	close(start)
+	start.release()
 	wg.Wait()
 	rep.Histogram["calls:concurrent-content"] += rc.G * reps * len(ops)
+	// more first-use rounds, each on its own fresh build
+	{
+		names := make([]string, len(ops))
+		for k, op := range ops {
+			names[k] = op.name
+		}
+		refs := make([][]string, rc.G)
+		stables := make([][]bool, rc.G)
+		for g := range refs {
+			refs[g], stables[g] = solo, stable
+		}
+		nb := 2
+		if raceEnabled {
+			nb = 0 // the concurrent phase above already ran on a fresh build; the detector needs no repetition
+		}
+		rn.coldBursts(func() []opFn {
+			cops := build()
+			if cops == nil {
+				return nil
+			}
+			out := make([]opFn, len(cops))
+			for k, op := range cops {
+				run := op.run
+				out[k] = opFn{op.name, func(*hcl.EvalContext) string { return safeOp(run) }}
+			}
+			return out
+		}, nb, rc.G, func(int) *hcl.EvalContext { return nil }, refs, stables, names, input)
+	}
 	if len(diffs) == 0 {
 		rep.Hist("oracle-ok")
 		rep.Hist("oracle-ok:content")
@@ -449,7 +532,7 @@ func (rn *runner) sharedForEachRound(rc roundCfg) {
 	ctx := &hcl.EvalContext{Variables: map[string]cty.Value{"items": cty.ListVal(items)}}
 	body := dynblock.Expand(f.Body, ctx) // ONE expanded body for all goroutines
 	schema := &hcl.BodySchema{Blocks: []hcl.BlockHeaderSchema{{Type: "b"}}}
-	dump := func() string {
+	dumpOf := func(body hcl.Body) string {
 		c, d := body.Content(schema)
 		var sb strings.Builder
 		sb.WriteString(dumpDiagsFull(d))
@@ -462,7 +545,17 @@ func (rn *runner) sharedForEachRound(rc roundCfg) {
 		}
 		return sb.String()
 	}
-	solo := safeOp(dump)
+	dump := func() string { return dumpOf(body) }
+	// the solo result comes from a SEPARATE parse and expansion: the shared body's
+	// first use is the concurrent one
+	var solo string
+	if f2, d2 := hclsyntax.ParseConfig([]byte(sharedForEachSrc), "s.hcl", hcl.InitialPos); !d2.HasErrors() {
+		other := dynblock.Expand(f2.Body, ctx)
+		solo = safeOp(func() string { return dumpOf(other) })
+		rep.Hist("phase:concurrent-on-fresh-parse")
+	} else {
+		solo = safeOp(dump)
+	}
 	input := fmt.Sprintf("#c17 kind=dynblock-foreach-shared-ctx %s\n%s# items = list of 8 objects {name = \"n<i>\"}; ONE dynblock.Expand(body, ctx) result shared by all goroutines, each calling Content(schema{b})\n", rc.String(), sharedForEachSrc)
 
 	old := runtime.GOMAXPROCS(rc.procs)
@@ -475,14 +568,14 @@ func (rn *runner) sharedForEachRound(rc roundCfg) {
 	var mu sync.Mutex
 	wrong := map[string]int{}
 	gidOf := make([]int64, rc.G)
-	start := make(chan struct{})
+	start := newBarrier(rc.G)
 	var wg sync.WaitGroup
 	for g := 0; g < rc.G; g++ {
 		wg.Add(1)
 		go func(g int) {
 			defer wg.Done()
 			gidOf[g] = hclsyntax.VerifGoroutineID()
-			<-start
+			start.arrive()
 			for i := 0; i < 40; i++ {
 				if got := safeOp(dump); got != solo {
 					mu.Lock()
@@ -492,7 +585,7 @@ func (rn *runner) sharedForEachRound(rc roundCfg) {
 			}
 		}(g)
 	}
-	close(start)
+	start.release()
 	wg.Wait()
 	hclsyntax.VerifAnonSetYield(0)
 	sharedCtx := ""
